@@ -627,7 +627,7 @@ fn risk_driver(out: &str, seed: u64, n: u64) {
 // liquidation / bankruptcy driver
 // ------------------------------------------------------------------------------------------------
 /// the account's deposit in `bank` in native units (shares x share value, as the program computes it)
-fn asset_amount(r: &mut Recorder, acct: &str, bank: &str) -> Option<fixed::types::I80F48> {
+pub fn asset_amount(r: &mut Recorder, acct: &str, bank: &str) -> Option<fixed::types::I80F48> {
     use fixed::types::I80F48;
     let bk = r.ex.env.k(bank);
     let b = r.ex.bank(bank).ok()?;
